@@ -16,7 +16,7 @@ for p in props:
             'thorough_cmd': f'./check {p} --tier thorough',
             'evidence_file': f'/verif/evidence/{p}.json',
             'replay_cmd_template': f'./check {p} --replay {{path}}',
-            'engine': t.get('engine', 'verus+kani'),
+            'engine': ('verus+kani' if CH.PROPS[p].get('units') and CH.PROPS[p].get('kani') else 'kani' if CH.PROPS[p].get('kani') else 'verus'),
             'level_claimed': {'category': t.get('category', 'proof'), 'text': t['level_text'], 'design_ref': t.get('design_ref', 'DESIGN.md section 3 ' + p)},
             'level_note': t['level_note'],
             'technique': t['technique'],
